@@ -266,6 +266,7 @@ class P(Prop):
         (M, "TV.C13.wkt_roundtrip", "parseWkt(track.toWKT()) returns the same vertices in the same order for every non-empty track in ENU, Geo or ECEF coordinates whose ordinates are ANY finite floats: negative zero, integer-valued, 17 digits, below 1e-4 / from 1e16 where str(float) prints the exponent notation"),
         (M, "TV.C13.wkt_vertex_value", "each vertex parsed back has exactly the planimetric coordinates written (mantissa/10^decimals = +-mag/10^d, cross-multiplied) and third coordinate 0"),
         (M, "TV.C13.wkt_upper", "what parseWkt works on: wkt.upper() of the exported text is the same text with the exponent marker E"),
+        (M, "TV.C13.wkt_file_roundtrip", "tracks exported with toWKT and stored one per line (uid, tid, quoted WKT text; optional header line and blank lines) are read back by readFromWkt(path, 2, 0, 1, sep, h, doublequote) as the same tracks in order: ids and every vertex"),
         (M, "TV.C13.repr_value", "float(str(x)) for x = +-mag/10^d of any magnitude: the text (positional, or exponent notation with e / E) is accepted by float() and the decimal read back has the value written"),
         (M, "TV.C13.float_exponent_form", "float() of any literal [-]d[.ddd](e|E)(+|-)xx is the decimal digits/10^(n-1) * 10^xx"),
         (M, "TV.C13.network_row_roundtrip", "an edge line written by writeToCsv is split by csv.reader into its five fields and rebuilt by readLineAndAddToNetwork as the same edge"),
@@ -294,8 +295,9 @@ class P(Prop):
                        "TrackReader.parseWkt on POLYGON / MULTIPOLYGON texts (never written by tracklib) is modelled and compared on hand-made texts, without a theorem",
                        "readFromCsv's no_data_value and com arguments keep their defaults (-999999, '#'); `com` is ignored by the library anyway (TrackFormat reads the key 'cmt')",
                        "formats given by NAME (writeToFile(track, path, 'RTKLIB'), readFromFile(path, 'RTKLIB'): resources/track_file_format) are outside the model: their "
-                       "separators have several characters (`bb`) or their timestamps are seconds since a reference epoch (date_ini); TrackReader.readFromWkt (a csv file with "
-                       "a WKT column, no writer in tracklib) is not modelled either"]
+                       "separators have several characters (`bb`) or their timestamps are seconds since a reference epoch (date_ini)",
+                       "TrackReader.readFromWkt is modelled for every column order, bare or quoted WKT texts, header counts and both doublequote values (stream wktfile); "
+                       "the theorem wkt_file_roundtrip covers the layout uid, tid, quoted WKT; its selector / bboxFilter arguments keep their defaults"]
     modelled = ("TrackWriter.writeToFile (O list, sort, __printInOrder, float formats, feature columns with int / float / str / nan / inf values), "
                 "TrackReader.__readFromCsv (data loop, header/comment skipping, field extraction, no-data rule; read_all: name_non_special through the "
                 "header and comment lines, feature creation from the last line's fields, the second pass with its raw first line, float()/str values, names "
@@ -321,7 +323,8 @@ class P(Prop):
             "from the whole float range (up to 1e60: edge lengths are squared); WKT (ENU, Geo, ECEF): half on the 1 mm / 1e-8 deg lattice (1e-08 is printed in exponent "
             "notation), half any finite floats - exponent notation on both sides (1e-5 .. 5e-324, 1e16 .. 1.8e308), the values next to the two switches, the residues a "
             "projection leaves on a point due east / north of its base (1.9e-05, -4.3e-12), -0.0, integer-valued, 17 significant digits, each layout as E and as N in "
-            "the three coordinate systems; a third of the off-lattice CSV / GPX coordinates and a quarter of the float feature values from the same classes; hand-made "
+            "the three coordinate systems; a third of the off-lattice CSV / GPX coordinates and a quarter of the float feature values from the same classes; exported tracks stored one per line in a csv "
+            "file (uid, tid, WKT text bare or quoted, the six column orders, header line, blank lines, reader header counts 0-5) read back by readFromWkt; hand-made "
             "POLYGON / LINESTRING / MULTIPOLYGON texts, a fifth of their ordinates in exponent form, well formed or not; sessions of 2-6 operations (CSV, GPX to one file, GPX to one file per track in a directory, network, WKT, "
             "timeWithZone, KML, readTimestamp / ObsTime(str)) sharing the global ObsTime formats - set once at the start, or changed by the user between operations "
             "(setfmt), between the write and the read of one file (mid_print), with twin formats (same literals and widths, two-character codes permuted) whose files hold "
@@ -810,6 +813,9 @@ class P(Prop):
                     out.append({"kind": "wkt", "srid": srid, "q": None, "pts": [[x, 12.5], [3.25, x]]})
         for _ in range(1500 if not thorough else 20000):
             out.append(self.wkt_case(rng))
+        # exported tracks stored one per line in a csv file and read back by readFromWkt
+        for _ in range(400 if not thorough else 4000):
+            out.append(self.wktfile_case(rng))
         # WKT texts as other tools write them, parsed by TrackReader.parseWkt (reader only): polygons, z values, blanks, case
         for _ in range(400 if not thorough else 4000):
             out.append(self.wktp_case(rng))
@@ -840,6 +846,24 @@ class P(Prop):
             q = None
             pts = [[self.rand_wide(rng, srid, 0), self.rand_wide(rng, srid, 1)] for _ in range(n)]
         return {"kind": "wkt", "srid": srid, "q": q, "pts": pts}
+
+    def wktfile_case(self, rng):
+        """tracks exported by toWKT, written by the user one per line into a csv file (user id, track id, WKT text - in
+        double quotes or bare - in any column order, with or without a header line and blank lines) and read back by
+        TrackReader.readFromWkt"""
+        nt = rng.choice([1, 2, 3])
+        tracks = []
+        for i in range(nt):
+            c = self.wkt_case(rng, n=rng.choice([1, 2, 3, 4]))
+            tracks.append({"uid": rng.choice(["u1", "7", "alice", "x-%d" % i, "0042"]), "tid": rng.choice(["t%d" % i, str(i), "run_%d" % i, "1e3"]),
+                           "pts": c["pts"] if c["q"] is None else [[cval(v, c["q"]) for v in p] for p in c["pts"]]})
+        pos = rng.sample([0, 1, 2], 3)       # positions of the wkt, user and track columns in the file
+        quoted = rng.random() < 0.6
+        sep = rng.choice([";", ";", "|", "\t"] + ([",", " "] if quoted else []))
+        hdr = rng.choice([0, 0, 1])
+        return {"kind": "wktfile", "tracks": tracks, "sep": sep, "hdr": hdr, "hdrR": hdr if rng.random() < 0.9 else rng.choice([0, 1, 2, 5]),
+                "quoted": quoted, "dq": rng.random() < 0.3, "blank": rng.random() < 0.2, "pw": pos[0], "pu": pos[1], "pt": pos[2],
+                "iu": pos[1] if rng.random() < 0.8 else -1, "it": pos[2] if rng.random() < 0.8 else -1}
 
     def wktp_case(self, rng):
         from fractions import Fraction as F
@@ -920,7 +944,7 @@ class P(Prop):
             return any(any(any(p) for p in e["geom"]) for e in case["edges"])
         if k == "wkt":
             return any(any(p) for p in case["pts"])
-        if k == "wktp":
+        if k in ("wktp", "wktfile"):
             return True
         if k == "session":
             return any(self.nontrivial(o) for o in case["ops"])
@@ -1394,6 +1418,41 @@ class P(Prop):
             read = self.ekind(e)
         return {"text": text, "read": read}
 
+    @staticmethod
+    def wktfile_cols(case, uid, tid, w):
+        cols = ["", "", ""]
+        cols[case["pw"]], cols[case["pu"]], cols[case["pt"]] = w, uid, tid
+        return cols
+
+    def impl_wktfile(self, case):
+        lines = []
+        if case["hdr"]:
+            lines.append(case["sep"].join(self.wktfile_cols(case, "user", "track", "wkt")))
+        for tr in case["tracks"]:
+            trk = self.Track([self.Obs(self.Coords["ENU"](float(p[0]), float(p[1]), 0.0), self.ObsTime()) for p in tr["pts"]])
+            w = self.lib("Track.toWKT", trk.toWKT)
+            lines.append(case["sep"].join(self.wktfile_cols(case, tr["uid"], tr["tid"], '"' + w + '"' if case["quoted"] else w)))
+            if case["blank"]:
+                lines.append("")
+        text = "".join(l + "\n" for l in lines)
+        path = self.tmpfile("wkt")
+        try:
+            with open(path, "w", newline="") as fh:
+                fh.write(text)
+            try:
+                back = self.lib("TrackReader.readFromWkt", self.TR.readFromWkt, path, case["pw"], case["iu"], case["it"], separator=case["sep"], h=case["hdrR"],
+                                doublequote=bool(case["dq"]))
+                read = [{"uid": str(back[i].uid) if case["iu"] >= 0 else None, "tid": str(back[i].tid) if case["it"] >= 0 else None,
+                         "pts": [[float(o.position.getX()), float(o.position.getY()), float(o.position.getZ())] for o in back[i]]} for i in range(back.size())]
+            except BaseException as e:
+                if isinstance(e, (KeyboardInterrupt, SystemExit)):
+                    raise
+                read = self.ekind(e)
+            return {"text": text, "read": read}
+        finally:
+            if os.path.exists(path):
+                os.remove(path)
+
     def impl_wktp(self, case):
         try:
             back = self.lib("TrackReader.parseWkt", self.TR.parseWkt, case["text"])
@@ -1460,6 +1519,12 @@ class P(Prop):
             return ["C13.wkt %d %s" % (d, "|".join("%s:%s" % (toks[2 * i], toks[2 * i + 1]) for i in range(len(case["pts"]))))]
         if k == "wktp":
             return ["C13.wktparse %s" % hx(case["text"])]
+        if k == "wktfile":
+            d, toks = snum_common([v for tr in case["tracks"] for p in tr["pts"] for v in p[:2]], None)
+            it = iter(toks)
+            trks = ";".join("%s,%s,%s" % (hx(tr["uid"]), hx(tr["tid"]), "|".join("%s:%s" % (next(it), next(it)) for p in tr["pts"])) for tr in case["tracks"])
+            return ["C13.wktfile %d %d %d %d %d %d %d %d %d %d %d %d %s" % (ord(case["sep"]), case["hdr"], case["hdrR"], case["quoted"], case["dq"], case["blank"],
+                                                                          case["pw"], case["pu"], case["pt"], case["iu"], case["it"], d, trks)]
 
     @staticmethod
     def rrow(tok):
@@ -1527,6 +1592,14 @@ class P(Prop):
         text, r = self.split_wr(replies[0])
         if text is None:
             return {"werr": r.split(" ")[0][5:]}
+        if k == "wktfile":
+            if r.startswith("err:"):
+                return {"text": text, "read": r[4:]}
+            read = []
+            for t in ([] if r[3:] in ("", "_") else r[3:].split(";")):
+                u, ti, g = t.split(",")
+                read.append({"uid": None if u == "-" else unhx(u), "tid": None if ti == "-" else unhx(ti), "pts": [] if g == "" else [self.v3(x) for x in g.split("|")]})
+            return {"text": text, "read": read}
         if r.startswith("err:"):
             read = r[4:]
         else:
@@ -1835,6 +1908,25 @@ class P(Prop):
             if gn != wn:
                 return "network: nodes written %s read back %s" % (wn, gn)
             return None
+        if k == "wktfile":
+            # the matching call: the header count of the file, columns read where they are; a bare WKT text needs a separator that
+            # does not occur in it
+            if case["hdrR"] != case["hdr"]:
+                return None
+            if not case["quoted"] and case["sep"] in ", ()e+-.0123456789LINESTRG":
+                return None
+            rd = out["read"]
+            if isinstance(rd, str):
+                return "WKT file: reading the file %r raised %s" % (out["text"], rd)
+            if len(rd) != len(case["tracks"]):
+                return "WKT file: %d tracks written, %d read back" % (len(case["tracks"]), len(rd))
+            for i, (tr, g) in enumerate(zip(case["tracks"], rd)):
+                want = [[float(p[0]), float(p[1])] for p in tr["pts"]]
+                if [p[:2] for p in g["pts"]] != want:
+                    return "WKT file: track %d exported %s, read back %s" % (i, want, [p[:2] for p in g["pts"]])
+                if (case["iu"] >= 0 and g["uid"] != tr["uid"]) or (case["it"] >= 0 and g["tid"] != tr["tid"]):
+                    return "WKT file: track %d written for user %r / track id %r, read back %r / %r" % (i, tr["uid"], tr["tid"], g["uid"], g["tid"])
+            return None
         if k == "wkt":
             rd = out["read"]
             if isinstance(rd, str):
@@ -1920,6 +2012,16 @@ class P(Prop):
                     es = [dict(x) for x in case["edges"]]
                     es[i]["geom"] = [e["geom"][0], e["geom"][-1]]
                     yield dict(case, edges=es)
+        if k == "wktfile":
+            if len(case["tracks"]) > 1:
+                for i in range(len(case["tracks"])):
+                    yield dict(case, tracks=case["tracks"][:i] + case["tracks"][i + 1:])
+            for i, tr in enumerate(case["tracks"]):
+                if len(tr["pts"]) > 1:
+                    for j in range(len(tr["pts"])):
+                        yield dict(case, tracks=case["tracks"][:i] + [dict(tr, pts=tr["pts"][:j] + tr["pts"][j + 1:])] + case["tracks"][i + 1:])
+            if case["blank"]:
+                yield dict(case, blank=False)
         if k == "wkt" and len(case["pts"]) > 1:
             for i in range(len(case["pts"])):
                 yield dict(case, pts=case["pts"][:i] + case["pts"][i + 1:])
